@@ -518,3 +518,31 @@ def h1(ctx: Ctx) -> None:
     from .c04 import r6 as removal_rule
 
     removal_rule(ctx)
+
+
+@rule("C10.R9", "a record is not changed after it was made: the fields of log objects are written by their constructors only (the logger may still hold a record that something else keeps a reference to)", "T1 who-may-write over every field of every Log class", floor=8)
+def r9(ctx: Ctx) -> None:
+    p = ctx.program
+    n = 0
+    for cname in sorted(p.subclasses("Log")):
+        ci = p.cls(cname)
+        init = ci.methods.get("__init__")
+        if init is None:
+            continue
+        import ast as _ast
+
+        fields = sorted({t.attr for x in _ast.walk(init.node) if isinstance(x, (_ast.Assign, _ast.AnnAssign)) for t in (x.targets if isinstance(x, _ast.Assign) else [x.target]) if isinstance(t, _ast.Attribute) and isinstance(t.value, _ast.Name) and t.value.id == "self"})
+        bad = []
+        for a in fields:
+            for w in ctx.cg.writers_of(cname, a, kinds=("store", "aug", "del")):
+                if w.func.name == "__init__":
+                    continue
+                if not w.recv or cname not in w.recv:
+                    continue  # receiver of another (or unknown) class
+                bad.append((w, a))
+        n += 1
+        for w, a in bad:
+            ctx.violated(w.func, w.node, f"{cname}.{a} is written by the constructor only", f"{cname}.__init__", f"{w.func.qualname} changes {a} of a {cname}: the record the logger holds changes with it")
+        if not bad:
+            ctx.holds(init, init.node, f"fields of {cname} are written by the constructor only", ", ".join(fields)[:120])
+    ctx.require(n >= 8, "fewer log classes with constructors than confirmed by reading")
